@@ -80,6 +80,7 @@ void verif_set_color(struct Tree* m, var node, bool col) { long i = index_of(nod
 bool verif_get_color(struct Tree* m, var node) { if (node == NULL) return 0; long i = index_of(node); V_ASSERT(i >= 0, "colour read from a pool node"); return i >= 0 ? GCOL[i] : 0; }
 
 #define OP_ACCESSORS 9
+#define OP_MARK 10
 #define OP_SET 1
 #define OP_REM 2
 #define OP_GET 3
@@ -203,6 +204,8 @@ static struct Tree* arbitrary_tree(size_t* count) {
 }
 #endif
 
+static var mark_seen[2 * TN + 2]; static int mark_n = 0; static var mark_gc;
+static void mark_rec(var gc, void* p) { V_ASSERT(gc == mark_gc, "the collector handle is passed through"); if (mark_n < 2 * TN + 2) mark_seen[mark_n] = p; mark_n++; }
 static var expect_throw = NULL; static uint64_t snap[TN][NW]; static _Bool snap_col[TN]; static struct Tree snap_m; static struct Tree* snap_p; static int snap_live;
 void verif_on_throw(void* obj) {
   V_ASSERT(expect_throw != NULL, "operation raised an exception although its arguments are in contract");
@@ -300,6 +303,18 @@ V_HARNESS {
     c = Tree_Iter_Last(m);
     for (int s = 0; s < TN + 1 && c != Terminal; s++) { if (cb >= n || ((struct Elem*)c)->val != W_key[n - 1 - cb]) ok = 0; cb++; c = Tree_Iter_Prev(m, c); }
     V_ASSERT(c == Terminal && ok && cb == n, "backward iteration is the exact reverse"); }
+#elif OP == OP_MARK
+  { static uint64_t gcobj[2]; mark_gc = &gcobj[1];
+    Tree_Mark(m, mark_gc, mark_rec);
+    V_WITNESS("mark done");
+    V_ASSERT(mark_n == 2 * (int)n, "Tree_Mark reports exactly two objects per binding");
+    _Bool all = 1;
+    for (int i = 0; i < TN - 1; i++) if (i < (int)n) {
+      int ck = 0, cv = 0;
+      for (int j = 0; j < 2 * TN + 2; j++) if (j < mark_n) { ck += (mark_seen[j] == Tree_Key(m, node_at(i))); cv += (mark_seen[j] == Tree_Val(m, node_at(i))); }
+      if (ck != 1 || cv != 1) all = 0;
+    }
+    V_ASSERT(all, "every key and every value of the Tree is handed to the collector exactly once (C01)"); }
 #elif OP == OP_CLEAR
   Tree_Resize(m, 0);
   V_WITNESS("cleared");
